@@ -72,6 +72,14 @@ pub fn regen(case: &Case) -> Vec<In> {
 	cfg.seg = cfg.seg.max(50) * 20; // long regimes: the faults lie far in the past of late positions
 	let mut fc = FaultCount::new();
 	let name = case.sut.as_str();
+	if case.shape >= 4 {
+		// model family, stratified: 4 = long flats, 5..=8 = trend (up/down) x (ripple/strictly monotone)
+		let cs = match case.shape {
+			4 => feed::long_flats(&mut r.sub("values"), len),
+			v => feed::trend_ripple_v(&mut r.sub("values"), len, Some((v - 5) % 2 == 0), Some((v - 5) / 2 == 1)),
+		};
+		return feed::to_in_candles(&cs);
+	}
 	if case.shape == 1 || case.shape == 3 {
 		let cs = feed::trend_ripple(&mut r.sub("values"), len);
 		return match (case.cfg.is_some(), sut::method(name.trim_end_matches('0')).map(|i| i.input)) {
@@ -206,7 +214,7 @@ impl Check for C07 {
 		"C07"
 	}
 	fn runs(&self, tier: Tier) -> u64 {
-		base_runs(tier) + ind_model().len() as u64 * if tier == Tier::Quick { 4 } else { 16 }
+		base_runs(tier) + ind_model().len() as u64 * if tier == Tier::Quick { 12 } else { 36 }
 	}
 	fn generate(&self, root: &Rng, i: u64, tier: Tier) -> Case {
 		if i >= base_runs(tier) {
@@ -221,7 +229,7 @@ impl Check for C07 {
 			let def = (info.default_cfg)();
 			let first = In::c(100.0, 101.0, 99.0, 100.5, 1000.0);
 			let mut chosen = def.clone();
-			if k >= 2 || r.chance(0.5) {
+			if k >= 6 || r.chance(0.5) {
 				for _ in 0..12 {
 					let c = cfgmut::mutate(&def, &mut r, 0.5, 60, None);
 					if matches!(guarded(|| (info.validate)(&c)), Ok(Ok(true))) && matches!(guarded(|| (info.make)(&c, &first)), Ok(Ok(_))) {
@@ -239,7 +247,8 @@ impl Check for C07 {
 				len,
 				fault_free: k % 4 == 3,
 				late_points: 0,
-				shape: 2 + (k % 2) as u8,
+				// regime stream, long flats, and the four trend variants (up/down x ripple/strictly monotone) in turn
+				shape: [2u8, 4, 5, 6, 7, 8][(k % 6) as usize],
 			};
 		}
 		let slots = WINDOWED.len() + RECURSIVE.len() + IND_FINITE.len() + IND_RECURSIVE.len();
@@ -327,15 +336,39 @@ impl Check for C07 {
 		let name = case.sut.as_str();
 		if case.shape >= 2 {
 			let mc = mcase(case, stream);
-			stats.fault(if case.shape == 3 { "feed:long_one_sided_trend" } else { "feed:long_regime_stream" });
-			stats.cover(format!("{name}|model|{}|len~1e{}", if case.shape == 3 { "trend" } else { "regimes" }, (len as f64).log10().round() as u32));
-			return crate::c05::refine("C07", &mc, stats, true, true)
+			let shape_name = match case.shape {
+				2 => "regimes",
+				4 => "long_flats",
+				5 => "trend_up_ripple",
+				6 => "trend_down_ripple",
+				7 => "trend_up_monotone",
+				8 => "trend_down_monotone",
+				_ => "trend",
+			};
+			stats.fault(&format!("feed:long_{shape_name}"));
+			stats.cover(format!("{name}|model|{shape_name}|len~1e{}", (len as f64).log10().round() as u32));
+			// averages that feed one running accumulator into a second one at every step (WMA, SWMA, LinReg, and HMA as a
+			// cascade of WMAs): their rounding drift grows faster than linearly (DESIGN.md §3.2, known finding)
+			let kinds = case.cfg.as_ref().map(cfgmut::ma_kinds_in).unwrap_or_default();
+			let double_acc = name == "HullMovingAverage" || kinds.iter().any(|k| matches!(k.as_str(), "wma" | "hma" | "swma" | "lin_reg"));
+			let mut found: Vec<Violation> = crate::c05::refine("C07", &mc, stats, true, true)
 				.into_iter()
 				.map(|v| {
 					let t = v.step;
-					v.tag("length", case.params.len()).tag("position_decade", format!("1e{}", (t as f64).max(1.0).log10().floor() as u32)).tag("beyond_1e6", "no").tag("oracle", "reference_model")
+					v.tag("length", case.params.len())
+						.tag("position_decade", format!("1e{}", (t as f64).max(1.0).log10().floor() as u32))
+						.tag("beyond_1e6", "no")
+						.tag("oracle", "reference_model")
+						.tag("double_accumulator_average", if double_acc { "yes" } else { "no" })
 				})
 				.collect();
+			// once a value of such a configuration has left its bound, signals derived from it are not judged any more
+			if double_acc {
+				if let Some(first) = found.iter().filter(|v| v.predicate.starts_with("value_")).map(|v| v.step).min() {
+					found.retain(|v| !(v.predicate.starts_with("signal_") && v.step >= first));
+				}
+			}
+			return found;
 		}
 		let base = name.trim_end_matches('0');
 		stats.suts.insert(name.to_string());
